@@ -40,7 +40,9 @@ fn main() {
             if let Some(i) = args.iter().position(|a| a == "--tier") {
                 tier = args[i + 1].clone();
             }
-            let code = match id {
+            // a panic of the harness outside the explorer (e.g. while building a fixture) is a machinery error (exit 2) with
+            // the message, never a bare crash
+            let code = std::panic::catch_unwind(std::panic::AssertUnwindSafe(|| match id {
                 "C01" => checks::c01::run(&tier, seed),
                 "C02" => checks::c02::run(&tier, seed),
                 "C03" => checks::c03::run(&tier, seed),
@@ -65,7 +67,12 @@ fn main() {
                     eprintln!("unknown property {id}");
                     2
                 }
-            };
+            }))
+            .unwrap_or_else(|p| {
+                let msg = p.downcast_ref::<String>().cloned().or_else(|| p.downcast_ref::<&str>().map(|s| s.to_string())).unwrap_or_default();
+                println!("MACHINERY-ERROR property={} the harness panicked outside the explorer: {}", id, msg.chars().take(400).collect::<String>());
+                2
+            });
             std::process::exit(code);
         }
         "replay" => {
